@@ -26,6 +26,8 @@ Step(r) == \/ r.ev = "reset" /\ Reset
            \/ r.ev = "close" /\ Close(r.sid) /\ Matches(r)
            \/ r.ev = "poll" /\ Poll(r.w) /\ Matches(r)
            \/ r.ev = "droprx" /\ DropRx /\ Matches(r)
+           \* end of a run: every remaining handle is dropped; nothing may go wrong in a destructor (a panic is recorded)
+           \/ r.ev = "teardown" /\ r.res = "" /\ UNCHANGED vars
 
 TInit == Init /\ l = 0
 TNext == l < Len(Rec) /\ l' = l + 1 /\ Step(R)
